@@ -635,6 +635,10 @@ def evaluate__node_comparison(self: XPathToken, context: ta.ContextType = None) 
 
         documents = [context.root]
         documents.extend(v for v in context.variables.values() if isinstance(v, DocumentNode))
+        if context.documents:
+            # the available documents (fn:doc) follow, in the stable order of their mapping
+            documents.extend(v for v in context.documents.values()
+                             if isinstance(v, DocumentNode) and v is not context.root)
 
         for root in documents:
             if root is not None:
